@@ -593,20 +593,6 @@ func (s *Store) Extract(a *Term, hi, lo int) *Term {
 				return s.Xor(x, c)
 			}
 		}
-	case OAdd, OSub, OMul:
-		if lo == 0 {
-			// low bits of arithmetic depend only on low bits of the operands
-			x := s.Extract(a.Args[0], hi, 0)
-			y := s.Extract(a.Args[1], hi, 0)
-			switch a.Op {
-			case OAdd:
-				return s.Add(x, y)
-			case OSub:
-				return s.Sub(x, y)
-			default:
-				return s.Mul(x, y)
-			}
-		}
 	case OIte:
 		if a.Args[1].IsConst() && a.Args[2].IsConst() {
 			return s.Ite(a.Args[0], s.Extract(a.Args[1], hi, lo), s.Extract(a.Args[2], hi, lo))
